@@ -37,5 +37,6 @@ fn main() {
             2
         }
     };
+    common::tmp::cleanup_all();
     std::process::exit(code);
 }
